@@ -91,6 +91,46 @@ class _Subst(ast.NodeTransformer):
         return n
 
 
+def _prune_constant_tests(stmts):
+    def const_truth(t):
+        if isinstance(t, ast.Constant) and isinstance(t.value, (bool, int, type(None))):
+            return bool(t.value)
+        if isinstance(t, ast.UnaryOp) and isinstance(t.op, ast.Not):
+            v = const_truth(t.operand)
+            return None if v is None else (not v)
+        return None
+
+    def block(ss):
+        out = []
+        for st in ss:
+            if isinstance(st, ast.If):
+                v = const_truth(st.test)
+                if v is None:
+                    st.body = block(st.body) or [ast.Pass()]
+                    st.orelse = block(st.orelse)
+                    out.append(st)
+                else:
+                    out.extend(block(st.body if v else st.orelse))
+            elif isinstance(st, (ast.For, ast.While)):
+                st.body = block(st.body) or [ast.Pass()]
+                st.orelse = block(st.orelse)
+                out.append(st)
+            elif isinstance(st, ast.With):
+                st.body = block(st.body) or [ast.Pass()]
+                out.append(st)
+            elif isinstance(st, ast.Try):
+                st.body = block(st.body) or [ast.Pass()]
+                for h in st.handlers:
+                    h.body = block(h.body) or [ast.Pass()]
+                st.orelse = block(st.orelse)
+                st.finalbody = block(st.finalbody)
+                out.append(st)
+            else:
+                out.append(st)
+        return out
+    return block(stmts) or [ast.Pass()]
+
+
 def _lower(stmts, res):
     """lower returns to structured code; -> (stmts, always_returns)"""
     out = []
@@ -116,7 +156,13 @@ def _lower(stmts, res):
                 r, rr = _lower(rest, res)
                 out.append(ast.If(test=st.test, body=(b + r) or [ast.Pass()], orelse=o or []))
                 return out, rr
-            raise NotInlinable('return on some nested paths only')
+            # a return on some nested paths only: the continuation is copied into both branches (still structured, no flag variable)
+            if sum(1 for x in rest for _ in ast.walk(x)) > 400:
+                raise NotInlinable('return on some nested paths only, long continuation')
+            bb, br2 = _lower(list(st.body) + clone(rest), res)
+            oo, or2 = _lower(list(st.orelse) + clone(rest), res)
+            out.append(ast.If(test=st.test, body=bb or [ast.Pass()], orelse=oo))
+            return out, br2 and or2
         out.append(st)
     return out, False
 
@@ -245,6 +291,8 @@ class Inliner:
             if n not in bound and n in caller_names:
                 name_map[n] = '_i%d_%s' % (k, n)
         body = [_Subst(expr_map, name_map).visit(clone(s)) for s in body]
+        # a flag parameter bound to a literal decides its tests: dead branches are dropped (`if True: A else: B` -> A)
+        body = _prune_constant_tests(body)
         return prelude, body
 
     # ---- statements ---------------------------------------------------------
@@ -393,6 +441,107 @@ def inline_function(facts, cinfo, fn, rel=None, keep=(), force=(), depth=MAX_DEP
     return new
 
 
+def _pure_arg(e):
+    """argument expression that may be duplicated / moved: names, attribute chains, constants, and get()/getWidth() reads on them"""
+    if _simple(e):
+        return True
+    if isinstance(e, ast.Call) and isinstance(e.func, ast.Attribute) and e.func.attr in ('get', 'getWidth') and not e.args and not e.keywords:
+        return _pure_arg(e.func.value)
+    if isinstance(e, ast.Subscript):
+        return _pure_arg(e.value) and _pure_arg(e.slice)
+    return False
+
+
+def beta_reduce(fn):
+    """Local single-expression functions disappear: `def f(x): return E` / `f = lambda x: E` defined in the body of fn and only ever called directly, and
+    calls whose callee is a lambda expression, are replaced by E with the parameters substituted.  Returns a new function, or fn itself."""
+    def single_expr(node):
+        if isinstance(node, ast.Lambda):
+            a, body = node.args, node.body
+        else:
+            a = node.args
+            st = [x for x in node.body if not (isinstance(x, ast.Expr) and isinstance(x.value, ast.Constant))]
+            if len(st) != 1 or not isinstance(st[0], ast.Return) or st[0].value is None:
+                return None
+            body = st[0].value
+        if a.vararg or a.kwarg or a.kwonlyargs or a.defaults or a.posonlyargs:
+            return None
+        if _contains(body, (ast.Lambda, ast.Yield, ast.YieldFrom, ast.Await, ast.NamedExpr)):
+            return None
+        return [p.arg for p in a.args], body
+
+    def apply(params, body, call):
+        if call.keywords or len(call.args) != len(params) or any(isinstance(x, ast.Starred) for x in call.args):
+            return None
+        uses = {p: sum(1 for n in ast.walk(body) if isinstance(n, ast.Name) and n.id == p) for p in params}
+        for p, arg in zip(params, call.args):
+            if uses[p] > 1 and not _pure_arg(arg):
+                return None
+        return _Subst({p: arg for p, arg in zip(params, call.args)}, {}).visit(clone(body))
+
+    defs = {}
+    for st in fn.body:
+        if isinstance(st, ast.FunctionDef) and not st.decorator_list:
+            se = single_expr(st)
+            if se and not any(isinstance(n, ast.Name) and n.id == st.name for n in ast.walk(se[1])):
+                defs[st.name] = (st, se)
+        elif isinstance(st, ast.Assign) and len(st.targets) == 1 and isinstance(st.targets[0], ast.Name) and isinstance(st.value, ast.Lambda):
+            se = single_expr(st.value)
+            if se:
+                defs[st.targets[0].id] = (st, se)
+    # every other occurrence of the name must be the callee of a direct call, and the name is bound once
+    for name in list(defs):
+        dst = defs[name][0]
+        binds = sum(1 for n in ast.walk(fn) if (isinstance(n, ast.FunctionDef) and n is not fn and n.name == name) or
+                    (isinstance(n, ast.Name) and n.id == name and isinstance(n.ctx, ast.Store)))
+        callees = {id(n.func) for n in ast.walk(fn) if isinstance(n, ast.Call) and isinstance(n.func, ast.Name) and n.func.id == name}
+        loads = [n for n in ast.walk(fn) if isinstance(n, ast.Name) and n.id == name and isinstance(n.ctx, ast.Load)]
+        if binds != 1 or any(id(n) not in callees for n in loads):
+            del defs[name]
+    direct = any(isinstance(n, ast.Call) and isinstance(n.func, ast.Lambda) for n in ast.walk(fn))
+    if not defs and not direct:
+        return fn
+    new = clone(fn)
+    failed = set()
+
+    class R(ast.NodeTransformer):
+        def visit_Call(self, n):
+            self.generic_visit(n)
+            if isinstance(n.func, ast.Lambda):
+                se = single_expr(n.func)
+                r = apply(se[0], se[1], n) if se else None
+                return r if r is not None else n
+            if isinstance(n.func, ast.Name) and n.func.id in defs:
+                r = apply(defs[n.func.id][1][0], defs[n.func.id][1][1], n)
+                if r is None:
+                    failed.add(n.func.id)
+                    return n
+                return r
+            return n
+    R().visit(new)
+    if failed:
+        # keep the definitions that could not be reduced everywhere: redo without them
+        for k in failed:
+            defs.pop(k, None)
+        if not defs and not direct:
+            return fn
+        new = clone(fn)
+        failed.clear()
+        R().visit(new)
+    drop = {id(v[0]) for v in defs.values()}
+    names = set(defs)
+    new.body = [st for st in new.body if not ((isinstance(st, ast.FunctionDef) and st.name in names) or
+                                              (isinstance(st, ast.Assign) and len(st.targets) == 1 and isinstance(st.targets[0], ast.Name)
+                                               and st.targets[0].id in names and isinstance(st.value, ast.Lambda)))] or [ast.Pass()]
+    ast.fix_missing_locations(new)
+    for n in ast.walk(new):
+        for ch in ast.iter_child_nodes(n):
+            ch._parent = n
+    new._parent = getattr(fn, '_parent', None)
+    new._inlined = sorted(set(getattr(fn, '_inlined', [])) | {'<local %s>' % k for k in names} | ({'<lambda>'} if direct else set()))
+    return new
+
+
 def normalise(sm, facts=None, keep=None):
     """source map in which every function of the package has its private helper calls inlined; files without
     such calls keep their original text (the same SourceMap object is returned when nothing changes)"""
@@ -417,6 +566,7 @@ def normalise(sm, facts=None, keep=None):
             for i, st in enumerate(body):
                 if isinstance(st, (ast.FunctionDef,)):
                     new = inline_function(facts, cinfo, st, rel=rel, keep=keep)
+                    new = beta_reduce(new)
                     if new is not st:
                         body[i] = new
                         changed = True
